@@ -93,7 +93,7 @@ struct Harness { std::vector<int> progs; };
 struct XSched : Engine {
     bool verbose = false; std::vector<Harness> H;
     const char* name() override { return "x_sched"; }
-    std::vector<std::string> counter_names() override { return { "schedules", "scheduling_points", "harness_runs", "conflict_locations_excl_error", "max_points_in_a_schedule", "bound_exhausted_harnesses" }; }
+    std::vector<std::string> counter_names() override { return { "schedules", "scheduling_points", "harness_runs", "conflict_locations_excl_error", "sum_over_workers_of_max_points_in_a_schedule", "bound_exhausted_harnesses" }; }
     void build_harnesses() {
         if (!H.empty()) return; int n = (int)progs::all().size();
         for (int i = 0; i < n; i++) for (int j = i; j < n; j++) H.push_back({ { i, j } });
